@@ -98,10 +98,21 @@ def run_state(args):
     leaf = vc.must("make_leaf", issuer_cert=ca["cert_pem"], issuer_key=ca["key_pem"], key_type="ecdsa_p256", dns=san_dns, ips=san_ip,
                    not_after_s=int(st["e"]), not_before_s=min(-3600, int(st["e"]) - 3600))
     base = os.path.join(d, "certs", "sched_ecdsa-p256")
+    # every third point reaches its files through symbolic links (a `live/` layout, configuration management): present is present
+    linked = idx % 3 == 1
+    os.makedirs(os.path.join(d, "store"))
+
+    def put(path, text):
+        if linked:
+            real = os.path.join(d, "store", os.path.basename(path))
+            open(real, "w").write(text)
+            os.symlink(real if idx % 2 else os.path.join("..", "store", os.path.basename(path)), path)
+        else:
+            open(path, "w").write(text)
     if st["files"] != "no_key":
-        open(base + ".pk.pem", "w").write(leaf["key_pem"])
+        put(base + ".pk.pem", leaf["key_pem"])
     if st["files"] != "no_cert":
-        open(base + ".crt.pem", "w").write(leaf["cert_pem"])
+        put(base + ".crt.pem", leaf["cert_pem"])
     cfg = {"global": {"accounts_directory": os.path.join(d, "accounts"), "certificates_directory": os.path.join(d, "certs")},
            "endpoint": [{"name": "E", "url": "http://127.0.0.1:9/dir", "tos_agreed": True}],
            "account": [{"name": "a", "contacts": [{"mailto": "a@example.org"}]}],
